@@ -7,12 +7,12 @@ for d in /verif/seeded/s*/; do
   if [ -n "$WANT" ] && ! echo " $WANT " | grep -q " $prop "; then continue; fi
   DET=$(/venv/bin/python -c "import json,sys; m=json.load(open('$d/meta.json')); print(' '.join(x.split(':')[0] for x in m.get('detection',[]) if x.endswith('rc=1')) or '$prop')")
   git -C /repo apply $d/patch.diff 2>/dev/null || git -C /repo apply --3way $d/patch.diff 2>/dev/null || { echo "$id PATCH DOES NOT APPLY"; git -C /repo reset -q --hard HEAD; BAD=1; continue; }
+  OUT=$(/verif/tools/quick_all.py $DET 2>&1)
+  git -C /repo reset -q --hard HEAD
   OKS=""
   for c in $DET; do
-    /venv/bin/python /verif/check $c --no-write >/tmp/seedchk.out 2>&1; RC=$?
-    if [ $RC -ne 1 ]; then echo "$id NOT DETECTED by $c rc=$RC"; grep "ANALYSIS" /tmp/seedchk.out | cut -c1-200; BAD=1; else OKS="$OKS $c"; fi
+    if echo "$OUT" | grep -q "^$c rc=1"; then OKS="$OKS $c"; else echo "$id NOT DETECTED by $c: $(echo "$OUT" | grep -A1 "^$c rc" | tr '\n' ' ' | cut -c1-200)"; BAD=1; fi
   done
-  git -C /repo reset -q --hard HEAD
   echo "$id ok:$OKS"
 done
 git -C /repo status --short | head -3
